@@ -726,3 +726,118 @@ func ruleMissingKeyOverwrite(c *Ctx) {
 		c.ok("N-MISSING", "internal/parser", "no plain map read overwrites a syntax-tree field that already has a value", token.NoPos, "stores of plain map reads into tree fields judged: "+itoa(judged))
 	}
 }
+
+// ruleNilInnerMap (N-NILMAP): `outer[k][x] = v` writes into the map stored under k - a nil map when nothing was
+// stored there, and a write into a nil map panics (no recover anywhere: the background analysis takes the server
+// down).  Every such update is (a) control dependent on a nil test / comma-ok of outer[k], or (b) preceded by the
+// idiom `if outer[k] == nil { outer[k] = make(...) }` whose test block dominates it.  A make that happens under
+// some OTHER condition ("the name is new in a sibling map") does not count: the two maps need not have the same keys
+// (C06-m29: a tag first seen without a value is entered into the one map only; its first value then panics).
+func ruleNilInnerMap(c *Ctx) {
+	if c.ranOnce("ruleNilInnerMap") {
+		return
+	}
+	sameV := func(a, b ssa.Value) bool {
+		a, b = stripConv(a), stripConv(b)
+		return a == b || sameLoad(a, b)
+	}
+	lookupOf := func(v ssa.Value) *ssa.Lookup {
+		v = stripConv(v)
+		if ex, ok := v.(*ssa.Extract); ok {
+			v = ex.Tuple
+		}
+		lk, _ := v.(*ssa.Lookup)
+		return lk
+	}
+	// nilTestOf: cond says "outer[key] is nil" (isNil) or "is not nil / is present"
+	testOf := func(cc ctrlCond, outer, key ssa.Value) (isNilBranch, ok bool) {
+		switch x := cc.Cond.(type) {
+		case *ssa.BinOp:
+			if x.Op != token.EQL && x.Op != token.NEQ {
+				return false, false
+			}
+			for _, pr := range [][2]ssa.Value{{x.X, x.Y}, {x.Y, x.X}} {
+				k, isK := pr[1].(*ssa.Const)
+				if !isK || !k.IsNil() {
+					continue
+				}
+				if lk := lookupOf(pr[0]); lk != nil && sameV(lk.X, outer) && sameV(lk.Index, key) {
+					return (x.Op == token.EQL) == cc.Taken, true
+				}
+			}
+		case *ssa.Extract:
+			if lk, isLk := x.Tuple.(*ssa.Lookup); isLk && x.Index == 1 && sameV(lk.X, outer) && sameV(lk.Index, key) {
+				return !cc.Taken, true
+			}
+		case *ssa.UnOp:
+			if x.Op == token.NOT {
+				if ex, isEx := x.X.(*ssa.Extract); isEx && ex.Index == 1 {
+					if lk, isLk := ex.Tuple.(*ssa.Lookup); isLk && sameV(lk.X, outer) && sameV(lk.Index, key) {
+						return cc.Taken, true
+					}
+				}
+			}
+		}
+		return false, false
+	}
+	n := 0
+	for _, f := range c.P.ModuleFuncs() {
+		for _, b := range f.Blocks {
+			for _, ins := range b.Instrs {
+				mu, ok := ins.(*ssa.MapUpdate)
+				if !ok {
+					continue
+				}
+				lk, ok := stripConv(mu.Map).(*ssa.Lookup)
+				if !ok || lk.CommaOk {
+					continue
+				}
+				if _, isMap := lk.X.Type().Underlying().(*types.Map); !isMap {
+					continue
+				}
+				n++
+				outer, key := lk.X, lk.Index
+				safe := false
+				for _, cc := range controlCondsPol(b) {
+					if isNil, ok := testOf(cc, outer, key); ok && !isNil {
+						safe = true
+					}
+				}
+				if !safe {
+					// the make-if-nil idiom in front of the update
+					for _, b2 := range f.Blocks {
+						for _, x := range b2.Instrs {
+							mk, ok := x.(*ssa.MapUpdate)
+							if !ok || !sameV(mk.Map, outer) || !sameV(mk.Key, key) {
+								continue
+							}
+							if _, isMake := stripConv(mk.Value).(*ssa.MakeMap); !isMake {
+								continue
+							}
+							for _, cc := range controlCondsPol(b2) {
+								if isNil, ok := testOf(cc, outer, key); ok && isNil {
+									// the block that holds the test dominates the update
+									if tb := condBlockOf(cc.Cond); tb != nil && (tb == b || tb.Dominates(b)) {
+										safe = true
+									}
+								}
+							}
+						}
+					}
+				}
+				c.check(safe, "N-NILMAP", funcName(f), "a write into a map read from another map is behind a nil test of that entry", mu.Pos(),
+					"the inner map is tested (or made when nil) under a test of the very entry",
+					"outer[k][x] = v with nothing that guarantees outer[k] is not nil: the inner map is neither tested nor made under a test of that entry (a make under another condition - 'the name is new in a sibling map' - does not cover the names the sibling already has): assignment to entry in nil map, a panic that nothing recovers from")
+			}
+		}
+	}
+	c.census("N-NILMAP", "writes into a map read from another map", n, 1)
+}
+
+// condBlockOf: the block in which a condition value is computed.
+func condBlockOf(v ssa.Value) *ssa.BasicBlock {
+	if ins, ok := v.(ssa.Instruction); ok {
+		return ins.Block()
+	}
+	return nil
+}
